@@ -158,7 +158,16 @@ def case_1d(ctx, index, rng: random.Random):
                     df = pd.DataFrame({"a": data, "wcol": w if w is not None else np.ones(n), "other": np.arange(n)})
                     if w is not None and rng.random() < 0.5:
                         kw2["weights"] = "wcol"
-                    got = df.physt.h1("a", barg, **kw2)
+                    form_ = rng.randrange(4)
+                    if form_ == 0 or isinstance(kw2.get("weights"), str):
+                        got = df.physt.h1("a", barg, **kw2)
+                    elif form_ == 1:
+                        # the general accessor with a selection of one column (a list of one label, or a scalar label)
+                        got = df.physt.histogram(["a"] if rng.random() < 0.6 else "a", bins=barg, **kw2)
+                    elif form_ == 2:
+                        got = df[["a"]].physt.histogram(bins=barg, **kw2)
+                    else:
+                        got = df[["a"]].physt.h1(bins=barg, **kw2)
                     names = ("a",)
                 if rng.random() < 0.3:
                     names = None
@@ -412,12 +421,20 @@ def case_dask(ctx, index, rng: random.Random):
     finite = ~np.isnan(rows).any(axis=1)
     starved = any(not finite[i:i + chunks].any() for i in range(0, n, chunks))
     mech = "adaptive.construct.no_finite_data" if starved else None
+    # the bin specification: data-independent (a width), or derived from the data ("pretty": then from all of the data, not block by block)
+    spec, spec_kw, spec_kw1 = "fixed_width", {"bin_width": list(wdt)}, {"bin_width": wdt[0]}
+    if rng.random() < 0.3 and not starved:
+        spec = rng.choice(["pretty", "human"])
+        opt = rng.randrange(3)
+        spec_kw = {} if opt == 0 else ({"bin_count": rng.choice([5, 10, 20])} if opt == 1 else {"range": (-40.0, 60.0)})
+        spec_kw1 = dict(spec_kw)
+        desc["spec"] = [spec, {k: list(v) if isinstance(v, tuple) else v for k, v in spec_kw.items()}]
     try:
         with warnings.catch_warnings():
             warnings.simplefilter("ignore")
             with dask.config.set(scheduler="threads"):
                 if d == 1:
-                    got = pdask.h1(da.from_array(rows[:, 0], chunks=chunks), "fixed_width", bin_width=wdt[0], dask_method=rng.choice(["threaded", None]))
+                    got = pdask.h1(da.from_array(rows[:, 0], chunks=chunks), spec, **spec_kw1, dask_method=rng.choice(["threaded", None]))
                 else:
                     form = rng.choice(["dd", "dd", "h2", "columns"] if d == 2 else ["dd", "h3", "columns"])
                     desc["form"] = form
@@ -428,17 +445,17 @@ def case_dask(ctx, index, rng: random.Random):
                         starved = any(not finite[a:b].any() for a, b in zip(bounds[:-1], bounds[1:]))
                         mech = "adaptive.construct.no_finite_data" if starved else None
                         if form == "h2":
-                            got = pdask.h2(cols[0], cols[1], "fixed_width", bin_width=list(wdt))
+                            got = pdask.h2(cols[0], cols[1], spec, **spec_kw)
                         else:
-                            got = pdask.histogramdd(cols, "fixed_width", bin_width=list(wdt))
+                            got = pdask.histogramdd(cols, spec, **spec_kw)
                     elif form == "h3":
-                        got = pdask.h3(da.from_array(rows, chunks=(chunks, d)), "fixed_width", bin_width=list(wdt))
+                        got = pdask.h3(da.from_array(rows, chunks=(chunks, d)), spec, **spec_kw)
                     else:
-                        got = pdask.histogramdd(da.from_array(rows, chunks=(chunks, d)), "fixed_width", bin_width=list(wdt), dask_method=rng.choice(["threaded", None]))
+                        got = pdask.histogramdd(da.from_array(rows, chunks=(chunks, d)), spec, **spec_kw, dask_method=rng.choice(["threaded", None]))
             if d == 1:
-                ref = physt.h1(rows[:, 0].copy(), "fixed_width", bin_width=wdt[0], adaptive=True)
+                ref = physt.h1(rows[:, 0].copy(), spec, adaptive=True, **spec_kw1)
             else:
-                ref = physt.h(rows.copy(), "fixed_width", bin_width=list(wdt), adaptive=True)
+                ref = physt.h(rows.copy(), spec, adaptive=True, **spec_kw)
     except Exception as ex:
         rec.fail(monitor="C17.differential", op="dask", symptom=f"dask array refused: {type(ex).__name__}", diff=["raised"], mechanism=mech, detail={**desc, "error": str(ex)[:200]})
         rec.case(desc, False, cls="dask/raised")
@@ -567,6 +584,15 @@ def geant_case(rec, rng, kind, desc):
             if not ok:
                 rec.fail(monitor="C17.conversion", op="geant4 1D", symptom="Geant4 1D CSV not read back as written (bins / contents / under-overflow)", diff=["conversion"],
                          detail={**desc, "written": freq, "read": np.asarray(h.frequencies).tolist(), "underflow": float(h.underflow), "overflow": float(h.overflow)})
+            # the moments of the file belong to the weight of the file: a mean that is a number is the mean of the in-range rows
+            inside = freq[1:-1]
+            sw = float(sum(inside))
+            mean = float(h.statistics.mean())
+            if sw > 0:
+                want = sum(f * (xmin + (i + 0.5) * xw) for i, f in enumerate(inside)) / sw
+                if not (math.isnan(mean) or abs(mean - want) <= 1e-6 * (abs(want) + xw)):
+                    rec.fail(monitor="C17.conversion", op="geant4 1D", symptom="statistics of a Geant4 1D CSV give a mean that is neither unknown nor the mean of the file's moments", diff=["statistics"],
+                             detail={**desc, "mean": mean, "expected": want, "weight": float(h.statistics.weight), "Sw": sw})
         return
     nx, ny = rng.randint(1, 6), rng.randint(1, 6)
     if nx == ny:
